@@ -49,7 +49,7 @@ func genOp(rt *rapid.T) Op {
 	kind := rapid.SampledFrom([]string{
 		"open", "open", "open", "accept", "accept", "accept", "acceptnone", "cancel",
 		"read", "read", "read", "read", "read", "read", "write", "write", "write", "write", "write", "write",
-		"cw", "close", "rdl", "wdl", "dl", "settle",
+		"kick", "kick", "cw", "close", "rdl", "wdl", "dl", "settle",
 	}).Draw(rt, "op")
 	op := Op{K: kind, S: rapid.IntRange(0, 1).Draw(rt, "side")}
 	switch kind {
@@ -63,6 +63,11 @@ func genOp(rt *rapid.T) Op {
 		op.N = rapid.SampledFrom([]int{0, 1, 2, 7, 100, 4096, 65535, 65536, 70000, 200000}).Draw(rt, "size")
 		op.D = rapid.SampledFrom([]int{1, 1, 2, 3, 5, 10}).Draw(rt, "guard")
 		op.C = rapid.IntRange(0, 3).Draw(rt, "clear") != 0
+	case "kick":
+		op.I = rapid.IntRange(0, 3).Draw(rt, "stream")
+		op.N = rapid.SampledFrom([]int{1, 2, 101, 4097, 65536, 70000, 200001}).Draw(rt, "size")
+		op.D = rapid.IntRange(0, 1).Draw(rt, "mode")
+		op.C = rapid.IntRange(0, 1).Draw(rt, "both") == 1
 	case "cw", "close", "cancel":
 		op.I = rapid.IntRange(0, 3).Draw(rt, "stream")
 	case "rdl", "wdl", "dl":
@@ -118,6 +123,10 @@ func genDir(rt *rapid.T, label string, window int) DirScript {
 		d.PauseEvery = rapid.IntRange(1, 8).Draw(rt, label+".pause_every")
 		d.PauseUs = rapid.SampledFrom([]int{1, 50, 500, 2000}).Draw(rt, label+".pause_us")
 	}
+	if rapid.IntRange(0, 3).Draw(rt, label+".kicked") == 0 {
+		d.Kicks = rapid.IntRange(1, 4).Draw(rt, label+".kicks")
+		d.KickUs = rapid.SampledFrom([]int{50, 500, 2000}).Draw(rt, label+".kick_us")
+	}
 	if rapid.IntRange(0, 5).Draw(rt, label+".stops") == 0 {
 		d.StopAfter = rapid.SampledFrom([]int{0, 1, 100, 5000, 70000}).Draw(rt, label+".stop_after")
 	}
@@ -146,19 +155,20 @@ func genWork(rt *rapid.T) *WorkCase {
 var timingWindows = []int{0, 1, 100, 4096, 65535}
 
 var timingReleases = map[string][]string{
-	"read":    {"deadline-preset", "deadline-future", "deadline-past", "deadline-both", "local-close", "peer-close", "peer-close-write", "local-mux-close", "peer-mux-close", "carrier", "peer-data"},
-	"write":   {"deadline-preset", "deadline-future", "deadline-past", "deadline-both", "local-close", "local-close-write", "peer-close", "local-mux-close", "peer-mux-close", "carrier", "peer-reads"},
-	"open":    {"ctx-cancel", "ctx-timeout", "local-mux-close", "peer-mux-close", "carrier", "peer-accept"},
-	"accept":  {"ctx-cancel", "ctx-timeout", "local-mux-close", "peer-mux-close", "carrier", "peer-open"},
-	"stall":   {"fresh-transfer"},
-	"backlog": {"one-more-open"},
-	"mass":    {"local-mux-close", "peer-mux-close", "carrier"},
-	"expiry":  {"write-after-expiry"},
+	"read":       {"deadline-preset", "deadline-future", "deadline-past", "deadline-both", "local-close", "peer-close", "peer-close-write", "local-mux-close", "peer-mux-close", "carrier", "peer-data"},
+	"write":      {"deadline-preset", "deadline-future", "deadline-past", "deadline-both", "local-close", "local-close-write", "peer-close", "local-mux-close", "peer-mux-close", "carrier", "peer-reads"},
+	"open":       {"ctx-cancel", "ctx-timeout", "local-mux-close", "peer-mux-close", "carrier", "peer-accept"},
+	"accept":     {"ctx-cancel", "ctx-timeout", "local-mux-close", "peer-mux-close", "carrier", "peer-open"},
+	"stall":      {"fresh-transfer"},
+	"backlog":    {"one-more-open"},
+	"mass":       {"local-mux-close", "peer-mux-close", "carrier"},
+	"expiry":     {"write-after-expiry"},
+	"redeadline": {"clear-write", "clear-both", "future-write", "future-both"},
 }
 
 func genTiming(rt *rapid.T) *TimingCase {
 	c := &TimingCase{Env: genEnv(rt, timingWindows, 10)}
-	c.Kind = rapid.SampledFrom([]string{"read", "read", "write", "write", "open", "accept", "stall", "stall", "backlog", "backlog", "mass", "expiry"}).Draw(rt, "kind")
+	c.Kind = rapid.SampledFrom([]string{"read", "read", "write", "write", "open", "accept", "stall", "stall", "backlog", "backlog", "mass", "expiry", "redeadline", "redeadline"}).Draw(rt, "kind")
 	c.Release = rapid.SampledFrom(timingReleases[c.Kind]).Draw(rt, "release")
 	c.Side = rapid.IntRange(0, 1).Draw(rt, "side")
 	c.Opener = rapid.IntRange(0, 1).Draw(rt, "opener")
@@ -596,8 +606,8 @@ func TestTiming(t *testing.T) {
 	// combination depends on the luck of the draw.
 	sweep := ev.New(t, "C25", "blocked-calls-sweep",
 		"every (scenario kind, releasing event, blocking side, opening side) combination under two fixed configurations (window 4096 / 5 buffers / backlog 3, and window 100 / 1 buffer / backlog 1, 7-byte carrier buffering, fragmented reads); oracle and non-trivial rule as in blocked-calls")
-	sweep.SetExhaustive("scenario kinds x releasing events (40 pairs) x blocking side x opening side x 2 configurations")
-	kinds := []string{"read", "write", "open", "accept", "stall", "backlog", "mass", "expiry"}
+	sweep.SetExhaustive("scenario kinds x releasing events (44 pairs) x blocking side x opening side x 2 configurations")
+	kinds := []string{"read", "write", "open", "accept", "stall", "backlog", "mass", "expiry", "redeadline"}
 	idx := -1
 	for _, kind := range kinds {
 		for _, rel := range timingReleases[kind] {
@@ -657,6 +667,49 @@ func TestTiming(t *testing.T) {
 			}
 		}
 	})
+}
+
+// TestWriteRedeadline runs the "blocked Write released by a past deadline, then
+// written to again" scenario under C23 and C24 as well (C25 runs it as part of
+// its sweep): every combination of blocking side, opening side, deadline
+// API / reset mode, repetitions and window.
+func TestWriteRedeadline(t *testing.T) {
+	if ev.ReplayPath() != "" {
+		t.Skip("replaying")
+	}
+	p := prop()
+	if p != "C23" && p != "C24" {
+		t.Skip("runs inside TestTiming for C25")
+	}
+	rec := ev.New(t, p, "write-redeadline",
+		"every (blocking side, opening side, SetWriteDeadline|SetDeadline, cleared|moved to the future, 1-3 repetitions, peer window 0/1/100/4096) combination: a Write blocked on an exhausted send window is released by a past deadline set from another goroutine, the deadline is reset and a further non-empty Write is issued while the window is still exhausted, finally the peer reads everything; "+
+			"oracle: no teardown, wire reference model (in particular no zero-length data message), every accepted byte arrives in order; non-trivial: every Write was observed pending before its deadline was set")
+	rec.SetExhaustive("2 sides x 2 openers x 4 deadline modes x 3 repetition counts x 4 windows")
+	idx := -1
+	for _, rel := range timingReleases["redeadline"] {
+		for _, window := range []int{0, 1, 100, 4096} {
+			for reps := 1; reps <= 3; reps++ {
+				for combo := 0; combo < 4; combo++ {
+					if idx++; idx%ev.Shards() != ev.Shard() {
+						continue
+					}
+					c := &TimingCase{Kind: "redeadline", Release: rel, Side: combo & 1, Opener: combo >> 1, PreMs: 10, N: 1 + 99*(reps%2), K: reps}
+					c.Cfg[0] = MuxCfg{Window: window, Buffers: 1 + idx%5, Backlog: 3}
+					c.Cfg[1] = c.Cfg[0]
+					c.PipeCap = []int{1, 64, 65536}[idx%3]
+					r := judgeTimingStable(c)
+					rec.Eval()
+					rec.Class(rel)
+					if r.Fail != "" {
+						ev.FailTB(t, rec, c, "%s", r.Fail)
+					}
+					if r.NonTrivial {
+						rec.NonTrivialDistinct(1)
+					}
+				}
+			}
+		}
+	}
 }
 
 // --- the wire model must be able to reject (self-check on synthetic traces) ---
@@ -765,7 +818,7 @@ func TestReplay(t *testing.T) {
 				ev.FailTB(t, rec, &c, "%s", r.Violation)
 			}
 		}
-	case "blocked-calls", "blocked-calls-sweep":
+	case "blocked-calls", "blocked-calls-sweep", "write-redeadline":
 		var c TimingCase
 		if _, err := ev.LoadReplay(ev.ReplayPath(), &c); err != nil {
 			t.Fatalf("cannot load replay: %v", err)
